@@ -235,6 +235,10 @@ func Run[C any](t *testing.T, gen func(*rapid.T) C, check func(C) Result) {
 	}
 	wal := envPath("VERIF_WAL")
 	last := envPath("VERIF_LASTFAIL")
+	if walD.f != nil { // an enumeration of this binary wrote the case file before: this test replaces it by rename
+		walD.f.Close()
+		walD.f, walD.max = nil, 0
+	}
 	rapid.Check(t, func(rt *rapid.T) {
 		c := gen(rt)
 		js, err := json.Marshal(c)
@@ -285,6 +289,7 @@ func Fuzz[C any](f *testing.F, gen func(*rapid.T) C, check func(C) Result) {
 func Direct[C any](t *testing.T, c C, check func(C) Result) bool {
 	name := t.Name()
 	js, _ := json.Marshal(c)
+	walDirect(name, js) // a crash inside check (a panic in a cell goroutine cannot be recovered) is then attributable
 	r := check(c)
 	Record(name, js, &r)
 	if r.Fail != "" && r.Known == "" {
@@ -293,6 +298,38 @@ func Direct[C any](t *testing.T, c C, check func(C) Result) bool {
 		return false
 	}
 	return true
+}
+
+// walDirect keeps the write-ahead case file of an enumeration current with one positioned write per case
+// (enumerations account millions of cases; the file is padded with spaces, which JSON readers ignore).
+var walD struct {
+	f   *os.File
+	max int
+}
+
+// WriteAhead is walDirect for enumerations that call their check themselves.
+func WriteAhead(test string, js []byte) { walDirect(test, js) }
+
+func walDirect(test string, js []byte) {
+	p := envPath("VERIF_WAL")
+	if p == "" {
+		return
+	}
+	if walD.f == nil {
+		f, err := os.OpenFile(p, os.O_CREATE|os.O_TRUNC|os.O_WRONLY, 0o644)
+		if err != nil {
+			return
+		}
+		walD.f = f
+	}
+	b, _ := json.Marshal(replayFile{Property: propertyID, Test: test, Case: js})
+	if len(b) > walD.max {
+		walD.max = len(b)
+	}
+	for len(b) < walD.max {
+		b = append(b, ' ')
+	}
+	walD.f.WriteAt(b, 0)
 }
 
 // ReplayDirect: in replay mode, re-run the stored case of an enumeration test (one that
